@@ -116,7 +116,7 @@ def run(module, cfg=None, *, workers=1, scratch=None, env=None, timeout=3600, si
         if m:
             r.states = r.distinct = int(m.group(1))
     viol = re.search(r"Error: (Invariant .* is violated|Action property .* is violated|"
-                     r"Temporal properties were violated|Deadlock reached|"
+                     r"Temporal properties were violated|Temporal property .* was violated|Deadlock reached|"
                      r"The postcondition .*|Assumption .* is false)", out)
     if viol:
         r.violation = viol.group(0)
